@@ -243,3 +243,17 @@ Theorem C02_canonicalize_alloc : forall c fx fuel src rl s bs,
   0 <= rl' <= rl /\ zlen bs <= 5 * (totalSize (p_size s) + (rl - rl')) + 47.
 Proof. exact canonicalize_alloc. Qed.
 Print Assumptions C02_canonicalize_alloc.
+
+(* Equal, instrumented with the sum of the read sizes it hands out per message ([equal_mA];
+   erasing the ghost gives equal_m): handed out <= budget consumed <= T, any messages (no
+   well-formedness needed), any fuel *)
+From CV Require Import Value.EqualAcct.
+Theorem C02_equal_m_traversal : forall c fx x fuel w p q,
+  nonneg2 x w ->
+  let r := equal_mA fuel c fx x w (0, 0) p q in
+  fst r = equal_m fuel c fx x w p q /\
+  forall s, 0 <= rl_of x (snd (fst r)) s /\ 0 <= rl_of x (snd r) s /\
+            rl_of x (snd r) s <= rl_of x w s - rl_of x (snd (fst r)) s /\
+            rl_of x (snd r) s <= rl_of x w s.
+Proof. exact equal_m_traversal. Qed.
+Print Assumptions C02_equal_m_traversal.
